@@ -14,7 +14,7 @@ CAT_ATOMS = {
     "C(g, Treatment)": "g", "C(k, Sum)": "k", "T(h)": "h", "S(h)": "h", "C(s)": "s", "T(s)": "s",
 }
 NUM_ATOMS = {
-    "x": "x", "z": "z", "w": "w",
+    "x": "x", "z": "z", "w": "w", "y": "y",
     "scale(x)": "x", "center(z)": "z", "standardize(w)": "w", "center(x)": "x", "scale(z)": "z",
     "bs(z, df=3)": "z", "poly(x, 2)": "x", "bs(x, df=4)": "x", "poly(z, 3)": "z",
     "np.exp(x)": "x", "I(z ** 2)": "z", "{w + 1}": "w",
@@ -136,3 +136,34 @@ def split_top(label, sep=":"):
             cur += ch
     parts.append(cur)
     return parts
+
+
+def piece_value(piece, frame, atoms):
+    """Column denoted by one label piece: `atom` (numeric values) or `atom[level]` (indicator)."""
+    for a in sorted(atoms, key=len, reverse=True):
+        name = atom_label_name(a)
+        if piece == name:
+            return frame[atom_base(a)].to_numpy(dtype=float)
+        if piece.startswith(name + "[") and piece.endswith("]"):
+            level = piece[len(name) + 1 : -1]
+            col = frame[atom_base(a)]
+            return np.array([str(v) == level for v in col.tolist()], dtype=float)
+    raise KeyError(f"label piece {piece!r} names no atom of the formula")
+
+
+def label_value(label, frame, atoms):
+    """The column a design-matrix label denotes (statement of C04)."""
+    n = len(frame)
+    if "|" in label:
+        e, g = label.split("|", 1)
+        ev = np.ones(n) if e == "1" else label_value(e, frame, atoms)
+        ind = np.ones(n)
+        for p in split_top(g):
+            ind = ind * piece_value(p, frame, atoms)
+        return ev * ind
+    if label == "Intercept":
+        return np.ones(n)
+    v = np.ones(n)
+    for p in split_top(label):
+        v = v * piece_value(p, frame, atoms)
+    return v
